@@ -80,6 +80,7 @@ type c07job struct {
 	other []refMismatch // reference-only comparisons (no Coq case)
 	wraps []*c07wrapCase
 	disps []*c07dispCase
+	sess  []*c07sessCase
 	count map[string]int
 	evals int
 	refs  int
@@ -1074,6 +1075,20 @@ func runC07(args []string) error {
 						fmt.Printf("  why:  %s\n", v.BadMsg)
 						break
 					}
+				}
+			}
+		}
+	}
+	for _, j := range jobs {
+		for _, c := range j.sess {
+			okAll := true
+			for _, x := range append(append([]string{}, c.impl...), c.ref...) {
+				okAll = okAll && x == "ok"
+			}
+			if !okAll {
+				bad++
+				if *dump {
+					fmt.Printf("---- sess region=%q steps=%v\n  observed: %v\n", c.region, c.input["steps"], c.input["observed"])
 				}
 			}
 		}
